@@ -399,19 +399,29 @@ def fmt_hist(init: tuple, hist: tuple) -> list[str]:
     return out + [f"{_strip(p)}={v}" + ("" if c else "(no check)") for p, v, c in hist]
 
 
-def history_signature(u, uname: str, init: tuple, hist: tuple, fallback: str) -> str:
+def history_signature(u, uname: str, init: tuple, hist: tuple, fallback: str, got_status: int = 0,
+                      exp_status: int = 0) -> str:
     """Cause-level grouping: a history in which some file appears or disappears is attributed to
     that presence change (which module file came/went), otherwise to the message difference."""
     if fallback.split("|", 1)[1] == '-error: Unused "type: ignore" comment  [unused-ignore]':
         return fallback  # one recognisable cause whatever the edit that triggered the re-check
     cur = initial_vm(u, init)
     changed = set()
+    last_changed = False
     for p, v, _c in hist:
-        if (u.files[p][cur[p]] is None) != (u.files[p][v] is None):
+        last_changed = (u.files[p][cur[p]] is None) != (u.files[p][v] is None)
+        if last_changed:
             changed.add(_strip(p))
         cur[p] = v
     if changed:
-        return f"{uname}|file-appears-or-disappears:{'+'.join(sorted(changed))}"
+        sig = f"{uname}|file-appears-or-disappears:{'+'.join(sorted(changed))}"
+        # where a blocking error is involved, the finding is further identified by the direction of the wrong
+        # answer and by whether the presence change is part of the last request or lies further back
+        if got_status == 2 and exp_status != 2:
+            sig += "|stale-blocker" + ("|on-presence-change" if last_changed else "|after-later-edit")
+        elif exp_status == 2 and got_status != 2:
+            sig += "|missed-blocker" + ("|on-presence-change" if last_changed else "|after-later-edit")
+        return sig
     return fallback
 
 
@@ -526,7 +536,17 @@ def run_subtree(item: tuple) -> dict:
                 sig = f"{uname}|status:{got['status']}!={exp_status}"
             elif not extra and not missing:
                 sig = f"{uname}|order-within-file"
-            sig = history_signature(u, uname, init, hist, sig)
+            sig = history_signature(u, uname, init, hist, sig, got["status"], exp_status)
+            if mode == "cache-start" and not eq and not extra and missing:
+                # A daemon started from a fine-grained cache does not report the errors of modules it loaded from
+                # the cache and never re-processed (the repository's own fine-grained-cache tests skip cases whose
+                # initial state has errors).  One recognisable cause: nothing extra, and every missing line
+                # belongs to a file that no edit of the history touched.
+                vm_init = initial_vm(u, init)  # what the cache was written for
+                edited = {_strip(p) for p in vm_init if final.get(p) != vm_init[p]}  # net change only
+                miss_lines = sorted((cc - cg).elements())
+                if all(ln.split(":", 1)[0] not in edited for ln in miss_lines if not ln.split(": ", 1)[-1].startswith("note: See https://")):
+                    sig = f"{uname}|cache-start|errors-of-cached-unedited-modules-not-reported"
             out["violations"].append({
                 "signature": sig,
                 "what": f"{uname} {mode}{' recheck' if use_recheck else ''} history {fmt_hist(init, hist)}: "
